@@ -101,9 +101,9 @@ CONCRETE_POOL = (
 )
 
 META_POOL = (
-    rm.evar(0), rm.evar(1), rm.svar(0), BOT, rm.mv(0), rm.mv(1), rm.sym(0), rm.imp(rm.evar(0), rm.evar(1)),
-    rm.ex(0, rm.evar(0)), rm.ex(1, rm.evar(0)), rm.app(rm.sym(0), rm.evar(0)), rm.mu(0, rm.svar(0)), NEG(rm.mv(0)),
-    rm.mv(1, E=(0,)), rm.mv(1, S=(0,)), rm.esub(rm.mv(1), 0, rm.evar(1)), rm.svar(1), rm.mv(2),
+    rm.evar(0), rm.evar(1), rm.svar(0), BOT, rm.mv(0), rm.mv(1), rm.mv(1, E=(0,)), rm.sym(0), rm.ex(0, rm.evar(0)),
+    rm.imp(rm.evar(0), rm.evar(1)), rm.ex(1, rm.evar(0)), rm.app(rm.sym(0), rm.evar(0)), rm.mu(0, rm.svar(0)), NEG(rm.mv(0)),
+    rm.mv(1, S=(0,)), rm.esub(rm.mv(1), 0, rm.evar(1)), rm.svar(1), rm.mv(2),
     rm.ex(0, rm.mv(0)), rm.mu(0, rm.mv(0, P=(0,))), rm.ssub(rm.mv(1), 0, rm.evar(0)), NEG(rm.evar(0)), NEG(rm.svar(0)),
     rm.ssub(rm.mv(0, E=(0,)), 0, rm.evar(0)), rm.esub(rm.mv(0, S=(0,)), 0, rm.svar(0)), rm.imp(rm.sym(0), rm.sym(0)),
 )
